@@ -56,6 +56,11 @@ func buildCorpus(seed uint64) []CorpusItem {
 			items = append(items, CorpusItem{Path: prev.Path, Cfg: cfg, Fail: prev.Fail})
 			continue
 		}
+		if rn(25) == 24 {
+			p = genLongPath()
+			items = append(items, CorpusItem{Path: p.Text, Cfg: cfg})
+			continue
+		}
 		switch rn(10) {
 		case 0, 1, 2:
 			p = genFailPath()
